@@ -716,13 +716,15 @@ Lemma success_example :
      ("ConfigMap/z", [("d:k", "bystander")]);
      ("ConfigMap/hk", [("d:h", "0")])].
 Proof.
-  assert (Hwf : forall (rs : list res), forallb (fun r => true) rs = true -> True) by auto.
-  repeat split; try reflexivity.
-  - vm_compute. repeat constructor; simpl; intuition discriminate.
-  - intros r [<-|[<-|[]]]; vm_compute; repeat constructor; simpl; intuition discriminate.
-  - intros r _. right. intros h [].
-  - vm_compute. repeat constructor; simpl; intuition discriminate.
-  - intros r [<-|[]]; vm_compute; repeat constructor; simpl; intuition discriminate.
-  - intros r [<-|[]]. right. intros h [<-|[]]. vm_compute. discriminate.
-  - vm_compute. auto.
+  assert (Hff : forall c, oc_sf c = mkSF None None -> cf_k (oc_cf c) = None -> fault_free c) by (intros; split; auto).
+  split; [now apply Hff|]. split.
+  { split; [reflexivity|]. split; [vm_compute; repeat constructor; simpl; intuition discriminate|]. split.
+    - intros r [<-|[<-|[]]]; vm_compute; repeat constructor; simpl; intuition discriminate.
+    - intros r _. right. intros h []. }
+  split; [now apply Hff|]. split.
+  { split; [reflexivity|]. split; [vm_compute; repeat constructor; simpl; intuition discriminate|]. split.
+    - intros r [<-|[]]; vm_compute; repeat constructor; simpl; intuition discriminate.
+    - intros r [<-|[]]. right. intros h [<-|[]]. vm_compute. discriminate. }
+  split; [vm_compute; reflexivity|].
+  vm_compute. auto.
 Qed.
